@@ -435,7 +435,7 @@ func attribute(wk *worker, specs []zipgen.Archive, records []record) []*keyInfo 
 				hit.spec = minimise(wk, spec, path, id, false)
 				hit.canon = minimise(wk, hit.spec, path, id, true)
 				hit.prefix = r.Sym.Kind + ":" + stageGroup(r.Sym.Stage)
-				if stageGroup(r.Sym.Stage) == "reserialise" {
+				if stageGroup(r.Sym.Stage) == "reserialise" && r.Sym.Kind == "wrong" {
 					hit.prefix += ":" + r.Sym.Stage + ":" + r.Sym.Class
 				}
 				if len(path) > 1 || (len(path) == 1 && stageGroup(r.Sym.Stage) != "writer") {
